@@ -39,6 +39,19 @@ if os.environ.get("PEST_DRIVER"):            # test hook: a driver binary other 
 
 THEOREMS = {
     "C10": [
+        "Pest.C10.front_exact",
+        "Pest.C10.front_accepts_iff",
+        "Pest.C10.front_accepts_only_grammar_texts",
+        "Pest.C10.front_roundtrip_text'",
+        "Pest.C10.den_unique",
+        "Pest.C10.scan_inversion",
+        "Pest.C10.scan_accept",
+        "Pest.C10.parse_ctree",
+        "Pest.C10.grammarText'_of_grammarText",
+        "Pest.C10.wf'_of_wf",
+        "Pest.C10.wf_iff",
+        "Pest.C10.front_accepts_only_grammar_texts_partial",
+        "Pest.C10.peekBig_accepted",
         "Pest.C10.front_roundtrip_text",
         "Pest.C10.front_roundtrip_trivia",
         "Pest.C10.front_roundtrip",
